@@ -1,7 +1,7 @@
 CONSTANTS MaxFiles = 3
  Flaw_HttpClosesNormally = FALSE
- Flaw_MergesStaleDir = FALSE
- Emit = TRUE
+ Flaw_MergesStaleDir = TRUE
+ Emit = FALSE
 SPECIFICATION Spec
-INVARIANTS EmitCase
+INVARIANTS HitIsComplete NoPartialCommit
 CHECK_DEADLOCK FALSE
